@@ -153,6 +153,12 @@ func mintFor(subject string, ip net.IP, isCA bool, parent *x509.Certificate, sig
 
 // NewNetCluster builds the instances; permissions as in NewCluster (the default client may do everything).
 func NewNetCluster(ids []uint64) (*NetCluster, error) {
+	return NewNetClusterUnknown(ids, nil)
+}
+
+// NewNetClusterUnknown is NewNetCluster in which instance k's peer table lacks the peers unknown[k] (configurations are
+// rolled out one instance at a time).
+func NewNetClusterUnknown(ids []uint64, unknown map[uint64][]uint64) (*NetCluster, error) {
 	Init()
 	ca, caKey, caPEM, _, err := mintFor("Harness authority", nil, true, nil, nil)
 	if err != nil {
@@ -188,7 +194,19 @@ func NewNetCluster(ids []uint64) (*NetCluster, error) {
 			return nil, err
 		}
 		r, err := NewSignerRig(SignerOpts{Wallets: []string{"Wallet 1"}, DistWallets: []string{DistWallet}, Permissions: perms, Full: true,
-			ProcessID: id, PeersMap: peersMap, Sender: snd})
+			ProcessID: id, PeersMap: func() map[uint64]string {
+				if len(unknown[id]) == 0 {
+					return peersMap
+				}
+				m := map[uint64]string{}
+				for pid, addr := range peersMap {
+					m[pid] = addr
+				}
+				for _, pid := range unknown[id] {
+					delete(m, pid)
+				}
+				return m
+			}(), Sender: snd})
 		if err != nil {
 			c.Close()
 			return nil, err
